@@ -14,7 +14,7 @@ for d in "$out"/variant*.diff; do
   if ! git -C /repo apply "$d"; then echo "$v: DOES NOT APPLY"; continue; fi
   python3 tools/check.py "$prop" --tier quick --budget "$budget" > "$out/$v.check.log" 2>&1
   rc=$?
-  git -C /repo checkout -- .
+  git -C /repo checkout -- . ; git -C /repo clean -fdq src
   echo "$v: check rc=$rc  $(grep -m1 "quick:" "$out/$v.check.log" | cut -c1-120)"
   [ $rc -ne 0 ] && tail -4 "$out/$v.check.log" | cut -c1-400
   echo "{\"variant\":\"$name/$v\",\"property\":\"$prop\",\"check_rc\":$rc}" > "$out/$v.result.json"
